@@ -157,7 +157,7 @@ func c04RelaxScenario(tier string) *core.Scenario {
 	frees := []int{0, 11}
 	return &core.Scenario{
 		Name: "interacting_branches", Bound: -1,
-		Rule: "programs with 2 branches (all 24 orders of B0,B1,L0,L1; mnemonics over JMP/JE/CALL) and 3 branches (8 orders; JMP/JNZ): the gaps between the elements are solved so that the span of every JMP/Jcc is (rel8 bound + slack) bytes when all branches have their shortest form, slack over the stated set, remaining free gaps over {0,11}; x BITS. Every branch is decoded (condition, next+disp == sentinel-located label, no stray prefix), every label value embedded by DD and pass 1's symbol table must equal the real offsets. non-trivial = assembled without error; outcome class = tuple of emitted branch lengths",
+		Rule:   "programs with 2 branches (all 24 orders of B0,B1,L0,L1; mnemonics over JMP/JE/CALL) and 3 branches (8 orders; JMP/JNZ): the gaps between the elements are solved so that the span of every JMP/Jcc is (rel8 bound + slack) bytes when all branches have their shortest form, slack over the stated set, remaining free gaps over {0,11}; x BITS. Every branch is decoded (condition, next+disp == sentinel-located label, no stray prefix), every label value embedded by DD and pass 1's symbol table must equal the real offsets. non-trivial = assembled without error; outcome class = tuple of emitted branch lengths",
 		Bounds: map[string]any{"orders_2": len(orders2), "orders_3": len(orders3), "slack_2": slacks, "slack_3": slacks3, "free_gaps": frees, "mnemonics_2": mns2, "mnemonics_3": mns3},
 		Build: func(c *core.Chooser) *core.Case {
 			mode := []int{16, 32}[c.Pick("mode", 2)]
